@@ -304,7 +304,8 @@ def run(tier):
     routes_part(C)
     C.cov["explanation"] = ("laws of C15 model-checked by TLC over recorded relation matrices (%d values, all pairs and triples), API-level and template-level; "
                             "key lookups enumerated by TLC (MC_Keys) and replayed" % n)
-    C.cov["rule"] = "pairs/triples over the value universe; key-lookup vectors (inserted set, padding, lookup key, path)"
+    C.cov["rule"] = ("pairs/triples over the value universe; key-lookup vectors (inserted set, padding, lookup key, path); all pairs of the 208 string routes and "
+                     "of the 112 numeric routes (MC_Routes)")
     C.assumptions += ["the class of a universe value (same data) is assigned when the universe is built", "undefined operands in template expressions are left to C02"]
     return C.finish()
 
